@@ -82,17 +82,32 @@ def Val.ofInt (n : Int) : Val := .num (encodeInt n)
 
 /-! ## janet_unwrap_s64 / janet_unwrap_u64 -/
 
-/-- `janet_checkint64range(d)`, then `(int64_t) d` -/
-def numToS64 (d : Dbl) : Option Int :=
+/-- `(int64_t) n` / `(uint64_t) n` for the integer value n of a double: exact when n fits the type.  When it does not fit the
+    conversion is undefined in ISO C (6.3.1.4); what x86-64 produces at the first value past the range (2^63 resp. 2^64) is the
+    two's-complement wrap, and that is what the model returns (`unwrap_number_exact_or_rejected` shows the branch is never reached
+    with such a value on the current tree). -/
+def castS64 (n : Int) : Int := wrapS n
+def castU64 (n : Int) : Int := wrapU n
+
+/-- number branch of `janet_unwrap_s64` with the accepted window as parameters: integrality test, `lo ≤ d ≤ hi`, then `(int64_t) d` -/
+def numToS64W (lo hi : Int) (d : Dbl) : Option Int :=
   match d.toInt? with
-  | some n => if intMinDouble ≤ n ∧ n ≤ intMaxDouble then some n else none
+  | some n => if lo ≤ n ∧ n ≤ hi then some (castS64 n) else none
   | none => none
 
-/-- `janet_checkuint64range(d)`, then `(uint64_t) d` -/
-def numToU64 (d : Dbl) : Option Int :=
+/-- number branch of `janet_unwrap_u64`, window as parameters, then `(uint64_t) d` -/
+def numToU64W (lo hi : Int) (d : Dbl) : Option Int :=
   match d.toInt? with
-  | some n => if 0 ≤ n ∧ n ≤ intMaxDouble then some n else none
+  | some n => if lo ≤ n ∧ n ≤ hi then some (castU64 n) else none
   | none => none
+
+/-- the number branch of `janet_unwrap_s64` of the current tree: window `unwrapS64Lo .. unwrapS64Hi` regenerated from the range
+    test in inttypes.c (through `janet_checkint64range` of janet.h when the function uses it), bounds evaluated as the C compiler
+    evaluates them in a comparison with a double (`(double) INT64_MAX` is 2^63) -/
+def numToS64 (d : Dbl) : Option Int := numToS64W unwrapS64Lo unwrapS64Hi d
+
+/-- the number branch of `janet_unwrap_u64` of the current tree -/
+def numToU64 (d : Dbl) : Option Int := numToU64W unwrapU64Lo unwrapU64Hi d
 
 def unwrapS (v : Val) : Res Int :=
   match v with
